@@ -526,7 +526,7 @@ mod verif_queuing {
 
     //@H name=c16_handler_on_error_rev props=C16,C20 tier=thorough fn=QueuingMetricSinkBuilder::with_capacity,with_error_handler,build :: same with the capacity configured BEFORE the handler
     #[kani::proof]
-    #[kani::unwind(6)]
+    #[kani::unwind(3)]
     fn c16_handler_on_error_rev() {
         WRAPPED_OUTCOME.store(1, Ordering::SeqCst);
         let q = QueuingMetricSinkBuilder::new().with_capacity(2).with_error_handler(|e: io::Error| handler(e)).build(PlainSink);
@@ -576,26 +576,6 @@ mod verif_queuing {
         assert!(Arc::strong_count(&q.sink) >= 2, "[C08,C09] besides the handle, the worker's task keeps the wrapped sink alive: metrics still queued when the last handle is dropped can be handed to it");
         kani::cover!(true, "end");
         std::mem::forget(q);
-    }
-
-    //@H name=c09_build_drop_drains props=C08,C09,C20 tier=thorough bound="history through the real build(): emit, drop the only handle, worker resumes" fn=QueuingMetricSinkBuilder::build + Drop :: ownership built by build(): the wrapped sink stays alive while accepted metrics are queued, also after the last handle is gone; they are delivered, then the thread ends and the wrapped sink is dropped
-    #[kani::proof]
-    #[kani::unwind(3)]
-    fn c09_build_drop_drains() {
-        WRAPPED_OUTCOME.store(0, Ordering::SeqCst);
-        let q = QueuingMetricSink::from(LogSink);   // the thread starts and parks
-        let w = q.worker.clone();
-        let r = q.emit("1");
-        assert!(r.is_ok(), "accepted");
-        drop(q);                                    // last handle
-        assert!(WRAPPED_DROPPED.load(Ordering::SeqCst) == 0 && DELIVERED.load(Ordering::SeqCst) == 0, "[C09] the wrapped sink is not released while metrics accepted before the last drop are still queued (and the drop does not deliver them itself)");
-        w.stopped.store(false, Ordering::SeqCst);
-        w.run();                                    // the background thread continues
-        assert!(DELIVERED.load(Ordering::SeqCst) == 1, "[C08,C09] every metric accepted before the last drop is still handed to the wrapped sink");
-        assert!(w.stopped.load(Ordering::SeqCst) && WOULD_BLOCK.load(Ordering::SeqCst) == 1, "[C09] then the thread ends (it parked once, before the emit)");
-        // (that the wrapped sink is dropped once the thread has released the worker: c09_build_releases_wrapped)
-        kani::cover!(true, "end");
-        std::mem::forget(r); std::mem::forget(w);
     }
 
     //@H name=c16_no_handler props=C08,C15,C16,C20 fn=QueuingMetricSinkBuilder::build (task closure) :: without a handler the wrapped sink's error is discarded and the task returns normally
@@ -664,7 +644,7 @@ mod verif_queuing {
 
     //@H name=c08_build_clone_drop props=C08,C09,C20 tier=thorough bound="history through the real build(): clone, drop the clone, submit, worker runs" fn=QueuingMetricSinkBuilder::build + Clone + Drop :: handles created by the real build(): dropping a clone while the original is alive requests no stop; a metric accepted afterwards is delivered
     #[kani::proof]
-    #[kani::unwind(6)]
+    #[kani::unwind(3)]
     fn c08_build_clone_drop() {
         WRAPPED_OUTCOME.store(0, Ordering::SeqCst);
         let q = QueuingMetricSink::with_capacity(PlainSink, 2);
@@ -680,7 +660,7 @@ mod verif_queuing {
 
     //@H name=c09_build_releases_wrapped props=C09,C20 tier=thorough bound="history: build, drop last handle, thread ends" fn=QueuingMetricSinkBuilder::build + Drop :: ownership built by build(): once the last handle is gone and the thread has ended, the wrapped sink itself is dropped (so a wrapped buffered sink flushes)
     #[kani::proof]
-    #[kani::unwind(6)]
+    #[kani::unwind(4)]
     fn c09_build_releases_wrapped() {
         let q = QueuingMetricSink::from(LogSink);
         let w = q.worker.clone();
